@@ -6,6 +6,9 @@ from .facts import callee, callee_short, tyname
 CACHE_FIELDS = {
     'StoryState::output_stream_text_dirty', 'StoryState::output_stream_tags_dirty', 'StoryState::current_text',
     'StoryState::current_tags', 'StoryState::alive_flow_names_dirty', 'Story::prev_containers',
+    # "the bindings were checked since they last changed": a function of the binding table and the fallback setting,
+    # re-validated as such by C09.binding-validation-is-a-cache
+    'Story::has_validated_externals',
 }
 
 
@@ -31,6 +34,22 @@ def err_exits(prog, fn):
             src = producing_call(fn, t)
             if src is not None and src[1] is INLINED_RESULT:
                 continue
+            out.append((bb, '?' + (callee_short(src[1]) if src else 'unknown'), src))
+    # `fn f(..) -> Result { ...; g(..) }` : the callee's Err is this function's Err (no `?`, no Err(..) aggregate)
+    if fn.body['locals'][0]['ty'].startswith('core::result::Result<'):
+        ADAPT = ('map_err', 'ok_or', 'ok_or_else', 'map', 'and_then', 'or_else', 'or')
+        for bb, t in fn.calls():
+            dl = t['dest'].get('l')
+            if 'p' in t['dest'] or not (dl == 0 or dl in fn.ret_locals):
+                continue
+            cs = callee_short(t)
+            if cs.endswith('::from_residual') or cs.endswith('::from_output'):
+                continue
+            src = (bb, t)
+            if cs.rsplit('::', 1)[-1] in ADAPT and cs.split('::')[0] in ('Result', 'Option'):
+                src = producing_call(fn, t)
+                if src is not None and src[1] is INLINED_RESULT:
+                    continue
             out.append((bb, '?' + (callee_short(src[1]) if src else 'unknown'), src))
     return out
 
